@@ -304,6 +304,31 @@ func TestC16L2(t *testing.T) {
 		repeatSteps(rt, 30, func(i int) {
 			m := genMsg()
 			if m == nil {
+				if rapid.IntRange(0, 5).Draw(rt, "planDue") == 0 {
+					// an executor-change plan is due at the end of this block: a new validator (fresh operator or the
+					// operator's own key) and a new executor list, which may name an account more than once
+					cands := []string{exec, users[1].Str, users[2].Str}
+					var execs []string
+					for k := rapid.IntRange(1, 3).Draw(rt, "planExecs"); k > 0; k-- {
+						execs = append(execs, rapid.SampledFrom(cands).Draw(rt, "planExec"))
+					}
+					p := c14Plan{height: uint64(l2.Ctx.BlockHeight()), opI: rapid.IntRange(0, nValOps-1).Draw(rt, "planOp"), keyI: nValKeys + rapid.IntRange(0, 1).Draw(rt, "planKey"), executors: execs}
+					if w.planClass(p) == "clean" {
+						if err := l2.K.RegisterExecutorChangePlan(uint64(i+1), p.height, w.ops[p.opI].String(), "plan", w.pubKeyJSON(p.keyI), "info", execs); err == nil {
+							exec = execs[0]
+							w.logf("executor-change plan due at height %d: op%d key%d executors %v", p.height, p.opI, p.keyI, execs)
+							c.Class("L2/executor-change-plan-executed")
+							seen := map[string]bool{}
+							for _, e := range execs {
+								if seen[e] {
+									c.Class("L2/plan-lists-an-executor-twice")
+									break
+								}
+								seen[e] = true
+							}
+						}
+					}
+				}
 				updates, err := l2.EndBlock()
 				if err != nil {
 					fail("EndBlock: %v", err)
